@@ -1,4 +1,4 @@
 SPECIFICATION TSpec
-CONSTANTS Ids = {} Items = {} Weights = {} LgMaxs = {} MaxTotal = 0
+CONSTANTS Ids = {} Items = {} Weights = {} LgMaxs = {} MaxTotal = 0 CheckDesign = FALSE
 POSTCONDITION Accepted
 CHECK_DEADLOCK FALSE
